@@ -26,6 +26,7 @@ type GenCfg struct {
 	Sub        bool // create the nested directory d0/sub
 	Symlinks   bool // create symlinks ld0 -> d0, lf -> d0/<name>
 	MaxAdds    int
+	PRemoveNow int // percent of plugged bursts that contain a Remove of a watched dir followed by ops under fresh names
 	Others     int // up to this many other Watchers with random activity (C14)
 	PAbsorb    int // percent of segments run as absorb segments (needs a buffered channel)
 	MaxNames   int // size of the name pool (default 6)
@@ -89,6 +90,7 @@ type Gen struct {
 	steps   []Step
 	nops    int
 	nothers int
+	fresh   int
 }
 
 // AbsRoot is replaced by the real temp root when a case is executed.
@@ -252,6 +254,13 @@ func (g *Gen) Case() *Case {
 	}
 	nadd := rapid.IntRange(1, maxAdds).Draw(t, "nadd")
 	for i := 0; i < nadd; i++ {
+		if i < 2 && g.pct("maindir", 75) {
+			// most cases watch the busy directories d0 / d1
+			d := []string{"d0", "d1"}[i]
+			g.steps = append(g.steps, Step{K: KAdd, P: P(g.spell(d, false))})
+			g.added = append(g.added, d)
+			continue
+		}
 		g.apiStep(true)
 	}
 
@@ -277,7 +286,26 @@ func (g *Gen) Case() *Case {
 			if plug {
 				g.steps = append(g.steps, Step{K: KPlug})
 			}
+			rmAt := -1
+			if plug && len(g.added) > 0 && g.pct("removenow", g.cfg.PRemoveNow) {
+				rmAt = rapid.IntRange(0, k-1).Draw(t, "rmat")
+			}
 			for i := 0; i < k; i++ {
+				if i == rmAt {
+					j := rapid.IntRange(0, len(g.added)-1).Draw(t, "rmnowidx")
+					p := g.added[j]
+					g.added = append(g.added[:j:j], g.added[j+1:]...)
+					g.steps = append(g.steps, Step{K: KRemoveNow, P: P(g.spell(p, true))})
+					if g.fs.kind[p] == 'd' {
+						// changes made after Remove has returned, under names never used before
+						g.fresh++
+						f := P(p + "/post-" + string(rune('a'+g.fresh%26)) + string(rune('a'+(g.fresh/26)%26)))
+						g.steps = append(g.steps, Step{K: KCreate, P: f}, Step{K: KWrite, P: f, N: 1})
+						if g.pct("postrm", 50) {
+							g.steps = append(g.steps, Step{K: KUnlink, P: f})
+						}
+					}
+				}
 				g.fsStep()
 				if !plug && g.pct("poll", 15) {
 					g.steps = append(g.steps, Step{K: KPoll, N: rapid.IntRange(1, 5).Draw(t, "polln")})
@@ -471,6 +499,9 @@ func (g *Gen) fsStep() {
 		pt := g.cfg.POnTop
 		if pt == 0 {
 			pt = 3
+		}
+		if pt < 0 {
+			return "", false
 		}
 		if g.pct("ontop", pt) {
 			return g.pick("topdir", []string{"d0", "d1"}), true
